@@ -157,6 +157,20 @@ class FlowStub:
         self.log_prob_calls.append(x)
         return self.f.apply(self.f.Q, x)
 
+    # -- persistence (the Aspire.resume_from_file route): the stub writes a marker
+    # group; loading hands back the registered stub (the proposal is a function
+    # of the coordinates only, so "the same flow" is the same Q)
+    REGISTRY = {}
+
+    def save(self, h5_file, path="flow"):
+        g = h5_file.create_group(path)
+        g.attrs["stub"] = self.tag
+        FlowStub.REGISTRY[self.tag] = self
+
+    @classmethod
+    def load(cls, h5_file, path="flow"):
+        return FlowStub.REGISTRY[h5_file[path].attrs["stub"]]
+
     def sample_and_log_prob(self, n):
         self.n_draws += 1
         if self.max_draws is not None and self.n_draws > self.max_draws:
